@@ -63,7 +63,8 @@ KEYMAP = {"ShallowAcceptsMissingSubtree": _key}
 
 
 def controls(entries: list[dict], traces: list[dict]) -> list[tuple]:
-    out = c22.controls(entries, traces)[:1]
+    # dropped commit (chain); prov=False workload: dropped Task commit, partial subtree set
+    out = c22.controls(entries, traces)[:1] + c22.variant_controls(entries, traces)
     hit = next((t for e, t in zip(entries, traces)
                 if e["scn"] == 0 and e["hist"] == [["run", 0], ["run", 0]]), None)
     if hit is not None:
@@ -84,7 +85,8 @@ def controls(entries: list[dict], traces: list[dict]) -> list[tuple]:
 
 
 def run(ctx: Ctx) -> None:
-    ctx.assume("one fixed workload: parent(1) -> child(1) -> grand(11|111), check_valid='shallow' on parent",
+    ctx.assume("two fixed workloads: parent(1) -> child(1) -> grand(11|111), check_valid='shallow' on parent; "
+               "the same with child declared prov=False (inherited by grand)",
                "one injection per history, at most one edit; transfer = all executions through put_records",
                "sqlite file database (tmpfs); controlled single-threaded event loop",
                "rows are named through redun's own hash functions (C14/C15/C17 are separate properties)")
@@ -129,10 +131,14 @@ def replay(ctx: Ctx, rec: dict) -> None:
     r = rec["replay"]
     imp = any(h[0] == "import" for h in r["hist"])
 
+    var = r.get("var", 0)
+
     def only(jobs):
         inj = r["inj"] if r["inj"].get("kind", "none") != "none" else None
-        return [{"id": 0, "inj": None, "edits2": [0, 2], "edits3": [], "with_import": False},
-                {"id": 1, "inj": inj, "edits2": [0, 1, 2, 3], "edits3": [1, 2, 3], "with_import": imp}]
+        return [{"id": 0, "var": 0, "inj": None, "edits2": [0, 2], "edits3": [], "with_import": False},
+                {"id": 1000, "var": 1, "inj": None, "edits2": [], "edits3": [], "with_import": False},
+                {"id": var * 1000 + 1, "var": var, "inj": inj, "edits2": [0, 1, 2, 3], "edits3": [1, 2, 3],
+                 "with_import": imp}]
 
     points, npoints, table, jobs, entries, traces = c22.campaign(ctx, imp, [], jobs_filter=only)
     ctl = controls(entries, traces)
